@@ -1201,7 +1201,11 @@ impl<'a> Th<'a> {
             Some(Obj::Fwd { f, needle, cfg, .. }) => {
                 let f = f.clone();
                 let (needle, cfg) = (*needle, cfg.clone());
+                // the forced give-up fault (ArmInert) must hit the reference
+                // search at the same point as the search under test
+                let armed = with_ctx(|c| c.inert_countdown).flatten();
                 let r = if via_ref { lib(|| memmem::Finder::as_ref(&f).find(h)) } else { lib(|| f.find(h)) };
+                with_ctx(|c| c.inert_countdown = armed);
                 let nb = self.bytes(needle);
                 // history independence: a freshly built finder for the same
                 // needle (built from the harness' own copy, the original
@@ -1213,6 +1217,7 @@ impl<'a> Th<'a> {
                         Err(m) => Err(m),
                     }
                 };
+                with_ctx(|c| c.inert_countdown = None);
                 let res = res_of(r, Res::opt);
                 let fresh = res_of(fresh, Res::opt);
                 let m = Res::opt(model::find(hb, nb));
